@@ -113,4 +113,109 @@ theorem optLoop_eq (fuel : Nat) : ∀ (h : Sl) (xs : Bytes) (acc : List Opt), Re
                 refine ih _ _ _ hrest.2 ?_
                 simp [List.length_drop]; omega
 
+/-! ## Specification of DecodeFromBytes -/
+
+/-- `xs[i]` with a default (only used below indices that are proved in range). -/
+def getB (xs : Bytes) (i : Nat) : UInt8 := xs.getD i 0
+
+theorem getB_eq {xs : Bytes} {i : Nat} (h : i < xs.length) : xs[i] = getB xs i := by
+  simp [getB, List.getD, List.getElem?_eq_getElem h]
+
+/-- Specification of `decodeBody` on the list of bytes of `d`. -/
+def specBody (rp : Bool) (l1 : Layer) (ihl : Nat) (d : Bytes) (trunc : Bool) : DecOut :=
+  let o := parseOpts (ihl * 4 - 20 + 1) ((d.drop 20).take (ihl * 4 - 20)) []
+  let l3 : Layer := { l1 with
+    options := o.opts,
+    padding := match o.padding with | some x => x | none => if rp then [] else l1.padding,
+    contents := d.take (ihl * 4), payload := d.drop (ihl * 4) }
+  if o.err then ⟨l3, trunc || o.trunc, true⟩
+  else
+    let ff := Gp.be16 (getB d 6) (getB d 7)
+    ⟨{ l3 with version := (getB d 0).toNat / 16, tos := (getB d 1).toNat,
+               id := Gp.be16 (getB d 4) (getB d 5),
+               flags := ff / 8192, fragOffset := ff % 8192, ttl := (getB d 8).toNat,
+               protocol := (getB d 9).toNat, checksum := Gp.be16 (getB d 10) (getB d 11),
+               srcIP := (d.drop 12).take 4, dstIP := (d.drop 16).take 4 }, trunc || o.trunc, false⟩
+
+/-- Specification of DecodeFromBytes: a total function of the old layer and the bytes only. -/
+def decodeSpec (rp : Bool) (old : Layer) (data : Bytes) : DecOut :=
+  if data.length < 20 then ⟨old, true, true⟩
+  else
+    let lenField := Gp.be16 (getB data 2) (getB data 3)
+    let ihl := (getB data 0).toNat % 16
+    let length := if lenField = 0 then data.length % 65536 else lenField
+    let l1 : Layer := { old with length := length, ihl := ihl }
+    if length < 20 then ⟨l1, false, true⟩
+    else if ihl < 5 then ⟨l1, false, true⟩
+    else if ihl * 4 > length then ⟨l1, false, true⟩
+    else if data.length > length then specBody rp l1 ihl (data.take length) false
+    else if data.length < length then
+      if ihl * 4 > data.length then ⟨l1, true, true⟩ else specBody rp l1 ihl data true
+    else specBody rp l1 ihl data false
+
+theorem decodeBody_eq (rp : Bool) (l1 : Layer) (ihl : Nat) (d : Sl) (xs : Bytes) (trunc : Bool)
+    (hr : Rep d xs) (h5 : 5 ≤ ihl) (h16 : ihl < 16) (hx : ihl * 4 ≤ xs.length) :
+    decodeBody rp l1 ihl d trunc = .ok (specBody rp l1 ihl xs trunc) := by
+  have hm : (ihl * 4) % 256 = ihl * 4 := by omega
+  have hc := hr.sliceTo (b := ihl * 4) hx
+  have hp := hr.sliceFrom (a := ihl * 4) hx
+  have hh := hr.slice (a := 20) (b := ihl * 4) (by omega) hx
+  have hloop := optLoop_eq (ihl * 4 - 20 + 1) _ _ [] hh.2 (by simp [List.length_take, List.length_drop]; omega)
+  have i0 := hr.idx (i := 0) (by omega)
+  have i1 := hr.idx (i := 1) (by omega)
+  have i8 := hr.idx (i := 8) (by omega)
+  have i9 := hr.idx (i := 9) (by omega)
+  have s68 := hr.slice (a := 6) (b := 8) (by omega) (by omega)
+  have s46 := hr.slice (a := 4) (b := 6) (by omega) (by omega)
+  have s1012 := hr.slice (a := 10) (b := 12) (by omega) (by omega)
+  have s1216 := hr.slice (a := 12) (b := 16) (by omega) (by omega)
+  have s1620 := hr.slice (a := 16) (b := 20) (by omega) (by omega)
+  have b68 := s68.2.be16 (by simp [List.length_take, List.length_drop]; omega)
+  have b46 := s46.2.be16 (by simp [List.length_take, List.length_drop]; omega)
+  have b1012 := s1012.2.be16 (by simp [List.length_take, List.length_drop]; omega)
+  unfold decodeBody specBody
+  simp only [hm, hc.1, hp.1, hh.1, Res.bind_ok, hloop, hc.2.bytes, hp.2.bytes]
+  split
+  · rfl
+  · simp only [s68.1, s46.1, s1012.1, s1216.1, s1620.1, b68, b46, b1012, i0, i1, i8, i9, Res.bind_ok,
+      s1216.2.bytes, s1620.2.bytes]
+    simp only [List.getElem_take, List.getElem_drop, getB_eq]
+    rfl
+
+theorem decodeWith_eq_spec (rp : Bool) (old : Layer) (data foreign : Bytes) :
+    decodeWith rp old data foreign = .ok (decodeSpec rp old data) := by
+  have hr : Rep ⟨data ++ foreign, data.length⟩ data := rep_mk data foreign
+  unfold decodeWith decodeSpec
+  by_cases h20 : data.length < 20
+  · simp [h20]
+  · simp only [h20, if_false]
+    have s24 := hr.slice (a := 2) (b := 4) (by omega) (by omega)
+    have b24 := s24.2.be16 (by simp [List.length_take, List.length_drop]; omega)
+    have i0 := hr.idx (i := 0) (by omega)
+    simp only [s24.1, b24, i0, Res.bind_ok, List.getElem_take, List.getElem_drop, getB_eq]
+    generalize hlen : (if Gp.be16 (getB data (2 + 0)) (getB data (2 + 1)) = 0 then data.length % 65536
+      else Gp.be16 (getB data (2 + 0)) (getB data (2 + 1))) = length
+    have hihl : (getB data 0).toNat % 16 < 16 := Nat.mod_lt _ (by decide)
+    generalize (getB data 0).toNat % 16 = ihl at hihl
+    have hm : (ihl * 4) % 256 = ihl * 4 := by omega
+    simp only [hm]
+    by_cases c1 : length < 20
+    · simp only [c1, if_true]; rfl
+    · by_cases c2 : ihl < 5
+      · simp only [c1, c2, if_true, if_false]; rfl
+      · by_cases c3 : ihl * 4 > length
+        · simp only [c1, c2, c3, if_true, if_false]; rfl
+        · simp only [c1, c2, c3, if_false]
+          by_cases c4 : data.length > length
+          · have st := hr.sliceTo (b := length) (by omega)
+            simp only [c4, if_true, st.1, Res.bind_ok]
+            exact decodeBody_eq rp _ ihl _ _ false st.2 (by omega) hihl (by simp [List.length_take]; omega)
+          · by_cases c5 : data.length < length
+            · by_cases c6 : ihl * 4 > data.length
+              · simp only [c4, c5, c6, if_true, if_false]; rfl
+              · simp only [c4, c5, c6, if_true, if_false]
+                exact decodeBody_eq rp _ ihl _ _ true hr (by omega) hihl (by omega)
+            · simp only [c4, c5, if_false]
+              exact decodeBody_eq rp _ ihl _ _ false hr (by omega) hihl (by omega)
+
 end Gp.Ip4
